@@ -265,5 +265,5 @@ var Assumptions = []string{
 	"what a clause does inside the EVM is observed (gas left, refund counter, VM error through the public vm tracer; transfers / energy events from the receipt), not modelled (C10)",
 	"signature recovery, proved-work hash, prototype credit / sponsor lookups, params (base gas price, reward ratio) are computed by the real code and passed to the model as data",
 	"typed transactions before GALACTICA (nil base fee) are outside the input domain: consensus and packer reject them before the runtime",
-	"PoS worlds: Schedule itself updates the staker, so the Adopt differential runs on PoA chains only; no delegator contract exists in the harness (hasDelegations = false)",
+	"PoS worlds: Schedule itself updates the staker, so the Adopt differential runs on PoA chains only",
 }
